@@ -42,6 +42,8 @@ RULE += "; cached sections of a module wrapped as ModuleTemplate (and its get_de
 REQUIRED_COUNTERS += ["module_template_cached_renders"]
 RULE += "; cached sections called below another buffer (capture, call bodies of buffered defs, buffered / filtered siblings), compared with the uncached template"
 REQUIRED_COUNTERS += ["nested_cached_buffer_templates"]
+RULE += "; the deprecated cache_type / cache_dir / cache_url arguments on some of six templates built one after the other"
+REQUIRED_COUNTERS += ["legacy_argument_templates"]
 
 _st = {"counter": 0}
 
@@ -528,6 +530,7 @@ def gen_cases(tier, seed):
         yield {"kind": "module-template", "backend": b}
     for b in ("rec", "beaker-memory"):
         yield {"kind": "nested-buffers", "backend": b}
+    yield {"kind": "legacy-arguments"}
     n = 4000 if tier == "quick" else 40000
     per = 10
     for i in range(n // per):
@@ -854,6 +857,41 @@ def run_nested_cached_buffers(case, res):
         res.nontrivial("nested-cached-buffer", backend, name)
 
 
+def run_legacy_arguments(case, res):
+    """the deprecated Template arguments cache_type / cache_dir / cache_url become cache_args of THAT template (type, dir,
+    url), below its <%page> and section arguments - and of no other template built before or after it"""
+    T = _st["Template"]
+    Rec.store.clear()
+    Rec.created.clear()
+    src = '<%def name="c()" cached="True" cache_timeout="5">C</%def>${c()}'
+    _st["counter"] += 1
+    uid = "%d_%d" % (os.getpid(), _st["counter"])
+    plan = [
+        ("before", {}, {"timeout": 5}),
+        ("legacy", {"cache_type": "ltype", "cache_dir": "/ldir", "cache_url": "lurl"}, {"type": "ltype", "dir": "/ldir", "url": "lurl", "timeout": 5}),
+        ("after", {}, {"timeout": 5}),
+        ("after-with-own-args", {"cache_args": {"type": "own"}}, {"type": "own", "timeout": 5}),
+        ("legacy-again", {"cache_dir": "/other"}, {"dir": "/other", "timeout": 5}),
+        ("last", {}, {"timeout": 5}),
+    ]
+    for name, kw, want in plan:
+        del Rec.log[:]
+        res.evaluations += 1
+        res.count("legacy_argument_templates")
+        what = "template %r built with %r (the %s of six templates built one after the other)" % (name, kw, name)
+        try:
+            t = T(src, cache_impl="rec", uri="/legacy_%s_%s.html" % (uid, name.replace("-", "_")), **kw)
+            out = t.render_unicode()
+        except Exception as e:
+            res.violate("legacy-cache-arguments", "%s: %s: %s" % (what, type(e).__name__, e))
+            continue
+        got = [e[3] for e in Rec.log if e[0] == "get_or_create"]
+        if out != "C" or got != [want]:
+            res.violate("legacy-cache-arguments", "%s: rendered %r, the backend received %r, expected %r" % (what, out, got, [want]),
+                        witness="deprecated cache_type/cache_dir/cache_url on one template, other templates in the same process")
+    res.nontrivial("legacy-arguments")
+
+
 def run_raising(case, res):
     """a cached section whose body raises: the exception propagates, nothing is stored for its key, and the body runs
     again on the next render"""
@@ -932,6 +970,9 @@ def run_case(case):
         return res
     if case["kind"] == "nested-buffers":
         run_nested_cached_buffers(case, res)
+        return res
+    if case["kind"] == "legacy-arguments":
+        run_legacy_arguments(case, res)
         return res
     if case["kind"] == "batch":
         for j in range(case["n"]):
